@@ -651,7 +651,7 @@ pub fn exec_med(w: &mut World, op: &Op, rest: &str, env: &mut Env) {
                     env.res(Pool::I, dst)
                 }),
                 2 => {
-                    if !float_ok(&w.f[a]) || w.f[a].repr().is_infinite() {
+                    if !float_ok(&w.f[a]) {
                         return env.skip();
                     }
                     text_rt!(&w.f[a], FBin, canon_fbig, |v: &FBin| text_fbig(v), |v| {
@@ -660,7 +660,7 @@ pub fn exec_med(w: &mut World, op: &Op, rest: &str, env: &mut Env) {
                     })
                 }
                 3 => {
-                    if !float_ok(&w.d[a]) || w.d[a].repr().is_infinite() {
+                    if !float_ok(&w.d[a]) {
                         return env.skip();
                     }
                     text_rt!(&w.d[a], FDec, canon_fbig, |v: &FDec| text_fbig(v), |v| {
